@@ -13,6 +13,7 @@ func init() {
 	register("C01", checkC01)
 	replayers["c01/concrete"] = replayConc
 	replayers["c01/firstuse"] = replayFirstUse
+	replayers["c01/environment"] = replayEnvSense
 	replayers["c01/step"] = func(c *Ctx, raw []byte) []string {
 		return replayStepCase(c, raw, AspState|AspI|AspMem|AspPortsOut|AspFrame)
 	}
@@ -53,6 +54,7 @@ func checkC01(c *Ctx) {
 		}
 		runConcreteTypes(c, "c01/concrete", encs, fs)
 		runFirstUse(c, "c01/firstuse", encs)
+		runEnvSense(c, "c01/environment")
 	}
 	if slow != nil {
 		rep := <-slow
